@@ -27,13 +27,14 @@ def gen(rng: random.Random, tier: str):
     reps = {"quick": 1, "thorough": 80}[tier]
     for _ in range(reps):
         nu, ni = rng.randint(8, 14), rng.randint(6, 11)
-        rows = [[100 + u, 1000 + i, float(rng.choice([1, 2, 3, 4, 5]))] for u in range(nu) for i in range(ni) if rng.random() < 0.5]
+        UB, IB = rng.choice([(100, 1000), (0, 1000), (0, 0)])          # zero-based identifiers are identifiers like any other
+        rows = [[UB + u, IB + i, float(rng.choice([1, 2, 3, 4, 5]))] for u in range(nu) for i in range(ni) if rng.random() < 0.5]
         for name in SCORERS:
             queries = []
             # every scorer meets every (candidate form × number of unknown candidates) combination and every history form at least once
             HISTS = ["train", "custom-long", "none", "custom", "train", "custom-unknown", "only-unknown", "empty"]; off = rng.randrange(len(HISTS))
             for _q in range({"quick": 12, "thorough": 18}[tier]):
-                queries.append({"user": rng.choice([100 + u for u in range(nu)] + [999]), "hist": HISTS[(_q + off) % len(HISTS)],
+                queries.append({"user": rng.choice([UB + u for u in range(nu)] + [999]), "hist": HISTS[(_q + off) % len(HISTS)],
                                 "seed": rng.randrange(10**6), "n_known": rng.randint(max(0, ni - 4), ni) if _q % 2 else rng.randint(0, ni), "unknown_items": [1, 0, 2][(_q // 3) % 3],
                                 "cand_form": ["ids+vocab", "ids", "nums+vocab"][_q % 3], "unknown_first": _q % 2 == 0})
             yield {"scorer": name, "rows": rows, "train_seed": rng.randrange(10**6), "queries": queries}
